@@ -142,6 +142,12 @@ def main(tier):
                 if abs(bb - a) < 2 ** 31 - 100:
                     pairs.add((a, bb))
                     pairs.add((bb, a))
+        # operands on both sides of 2^31 seconds (the table's keys are 32 bits wide; later instants keep the last correction)
+        for a in (1341100798, 2 ** 31 - 2, 2 ** 31 - 1, 2 ** 31, 2 ** 31 + 1):
+            for bb in (2 ** 31 - 1, 2 ** 31, 2 ** 31 + 1, 40000 * 86400 + 12345):
+                if a != bb:
+                    pairs.add((a, bb))
+                    pairs.add((bb, a))
         nrun = 0
         def ymcw(t):
             import datetime
@@ -150,7 +156,7 @@ def main(tier):
         for pi, (a, bb) in enumerate(sorted(pairs)):
             # the table is consulted per notation of the operands (ymd, n-th weekday, seconds since the epoch): all three must agree
             variants = [("", [iso(a), iso(bb)])]
-            if pi % 3 == 1 or not quick:
+            if pi % 3 == 1 or not quick or max(a, bb) >= 2 ** 31 - 1:
                 variants.append((" -i %s", ["-i", "%s", str(a), str(bb)]))
             if pi % 3 == 2 or not quick:
                 variants.append((" (ymcw)", ["-i", "%Y-%m-%c-%wT%T", ymcw(a), ymcw(bb)]))
